@@ -67,29 +67,29 @@ Plan(l, k) ==
        "down" to 1.9 at a location that has a working tree but no repository of its own.
    None of this touches the content (nothing is lost: C52 holds there); the model needs it to know what to expect. *)
 OwnRepo(l) == l.repo \in {"own", "unused"}
+\* the repository find_repository() sees from the location: its own, else the enclosing shared one (even if unused)
+SeenRepoFmt(l) == IF OwnRepo(l) THEN l.fmt ELSE IF l.above THEN l.sfmt ELSE "none"
 OldComponent(l) ==      \* some component at the location is below the 2a level
     Rank(l.fmt) < 3 /\ (OwnRepo(l) \/ l.tree \/ (l.br # "ref" /\ l.fmt = "pack-0.92"))
 \* a reconfiguration that worked may have created components (tree, branch, repository) in the library's DEFAULT formats
 \* rather than the location's: the location is no longer `pure`, and what a later upgrade does there (convert, refuse or
 \* diverge) is left unspecified by this model - its effect on the content is still judged
 Impure(p) == IF p.out = "ok" THEN [out |-> "ok", lay |-> [p.lay EXCEPT !.pure = FALSE]] ELSE p
-\* the repository find_repository() sees from the location: its own, else the enclosing shared one (even if unused)
-SeenRepoFmt(l) == IF OwnRepo(l) THEN l.fmt ELSE IF l.above THEN l.sfmt ELSE "none"
 PlanUpgrade(l, f) ==
     IF f = "pack-0.92" /\ l.fmt # "pack-0.92" THEN No(l, "refused")
     ELSE IF SeenRepoFmt(l) \in Formats /\ ~Compat(SeenRepoFmt(l), f) THEN No(l, "refused")    \* BadConversionTarget
     ELSE IF Rank(f) < Rank(l.fmt)
          THEN (IF OwnRepo(l) THEN No(l, "refused") ELSE IF l.tree THEN No(l, "diverges") ELSE Yes(l))
-    ELSE IF f = "development-colo" /\ Rank(l.fmt) < 3
-         THEN (IF OldComponent(l) THEN No(l, "diverges") ELSE Yes([l EXCEPT !.fmt = f]))
+    ELSE IF f = "development-colo" /\ OldComponent(l) THEN No(l, "diverges")
     ELSE Yes([l EXCEPT !.fmt = f])
 \* upgrade of the enclosing shared repository: the repository itself, then (smart_upgrade) every branch that uses it
 PlanUpgradeShared(l, f) ==
     IF Rank(f) < Rank(l.sfmt) THEN No(l, "refused")
     ELSE IF f = "development-colo" /\ Rank(l.sfmt) < 3 THEN No(l, "diverges")
     ELSE LET l2 == [l EXCEPT !.sfmt = f] IN
-         IF l.repo # "shared" /\ l.br # "ref" THEN Yes(l2)          \* (a lightweight checkout below it is upgraded too)
-         ELSE LET d == PlanUpgrade(l2, f) IN [out |-> d.out, lay |-> d.lay]
+         IF l.repo # "shared" /\ l.br # "ref" THEN Yes(l2)          \* (a lightweight checkout below it is visited too)
+         \* which of the dependent location's components end up converted is not modelled: later upgrades there are unspecified
+         ELSE LET d == PlanUpgrade(l2, f) IN [out |-> d.out, lay |-> [d.lay EXCEPT !.pure = FALSE]]
 
 (* what an observer of the location can see of the content *)
 HasTree(l) == l.tree
